@@ -81,7 +81,7 @@ def tlc_mc(name, module, cfg_text, workers=12, timeout=1500, heap="8g", extra_en
     with open(cfg, "w") as f:
         f.write(cfg_text)
     mod = os.path.join(SPEC, "mc", module + ".tla")
-    args = ["-workers", str(workers), "-metadir", os.path.join(meta, "states"), "-cleanup", "-noGenerateSpecTE",
+    args = ["-workers", str(workers), "-checkpoint", "0", "-metadir", os.path.join(meta, "states"), "-cleanup", "-noGenerateSpecTE",
             "-config", cfg]
     if coverage:
         args += ["-coverage", "1"]
@@ -191,7 +191,7 @@ def tlc_trace(name, module, trace_file, cfg_text=None, devs="", timeout=1500, he
     with open(cfg, "w") as f:
         f.write(cfg_text or "SPECIFICATION Spec\nPOSTCONDITION AllConsumed\nCHECK_DEADLOCK FALSE\n")
     mod = os.path.join(SPEC, "trace", module + ".tla")
-    args = ["-workers", "1", "-metadir", os.path.join(meta, "states"), "-cleanup", "-noGenerateSpecTE", "-config", cfg, mod]
+    args = ["-workers", "1", "-checkpoint", "0", "-metadir", os.path.join(meta, "states"), "-cleanup", "-noGenerateSpecTE", "-config", cfg, mod]
     env = offline_env({"TRACE": trace_file, "DEVS": devs})
     if extra_env:
         env.update(extra_env)
